@@ -749,6 +749,121 @@ fn families(l: &Lang, thorough: bool) -> Acc {
     acc
 }
 
+/// nesting constructs of the filter language at depth d (all valid RFC 9535 when the recogniser says so)
+pub fn nest(construct: &str, d: usize) -> String {
+    fn rec(d: usize, base: &str, wrap: &dyn Fn(&str) -> String) -> String {
+        let mut s = base.to_string();
+        for _ in 0..d {
+            s = wrap(&s);
+        }
+        s
+    }
+    match construct {
+        "parens" => format!("$[?{}@.a{}]", "(".repeat(d), ")".repeat(d)),
+        "not-parens" => format!("$[?{}@.a{}]", "!(".repeat(d), ")".repeat(d)),
+        "nested-filters" => format!("$[?@{}.a{}]", "[?@".repeat(d), "]".repeat(d)),
+        "length-of-value" => format!("$[?{}==1]", rec(d, "@.a", &|x| format!("length(value({}))", if x.starts_with('@') { x.to_string() } else { format!("@[?{}==1]", x) }))),
+        "match-over-filter" => format!("$[?{}]", rec(d, "@.a", &|x| format!("match(value(@[?{}]),'a')", x))),
+        "search-over-filter" => format!("$[?{}]", rec(d, "@.a", &|x| format!("search(value(@[?{}]), 'a')", x))),
+        "count-over-filter" => format!("$[?{}]", rec(d, "@.a", &|x| format!("count(@[?{}])>0", x))),
+        "test-and-group" => format!("$[?{}]", rec(d, "@.a", &|x| format!("(match(@.a,'a')&&{})", x))),
+        "or-chain" => format!("$[?@.a{}]", "||@.a".repeat(d)),
+        "and-chain" => format!("$[?@.a{}]", "&&@.b==1".repeat(d)),
+        "union" => format!("$[0{}]", ",0".repeat(d)),
+        "name-segments" => format!("${}", ".a".repeat(d)),
+        "index-segments" => format!("${}", "[0]".repeat(d)),
+        "abs-query-tests" => format!("$[?{}]", rec(d, "$.a", &|x| format!("$[?{}]", x))),
+        _ => panic!("unknown nesting construct {}", construct),
+    }
+}
+
+pub const NESTS: [&str; 14] = [
+    "parens", "not-parens", "nested-filters", "length-of-value", "match-over-filter", "search-over-filter", "count-over-filter", "test-and-group", "or-chain", "and-chain", "union",
+    "name-segments", "index-segments", "abs-query-tests",
+];
+
+/// child: parse one string as the first thing this process does
+pub fn parse_fresh_child(q: &str) -> i32 {
+    match imp::parse(q) {
+        Ok(Ok(_)) => println!("accepted"),
+        Ok(Err(e)) => println!("rejected: {}", e.lines().last().unwrap_or("").trim()),
+        Err(p) => println!("panic: {}", p),
+    }
+    0
+}
+
+fn parse_fresh(q: &str) -> Result<String, String> {
+    let exe = std::env::current_exe().map_err(|e| e.to_string())?;
+    let out = std::process::Command::new(exe).args(["parse-fresh", q]).output().map_err(|e| e.to_string())?;
+    if !out.status.success() {
+        return Ok(format!("abort: {:?}", out.status));
+    }
+    Ok(String::from_utf8_lossy(&out.stdout).trim().to_string())
+}
+
+/// space 5: nesting ladders, every sentence parsed as the FIRST parse of a fresh process (no history: nothing an
+/// earlier, longer or shorter query left behind can help or hurt), in parallel processes
+fn fresh_ladder(l: &Lang, thorough: bool) -> Acc {
+    let maxd = if thorough { 14 } else { 10 };
+    let jobs: Vec<(&str, usize)> = NESTS.iter().flat_map(|c| (1..=maxd).map(move |d| (*c, d))).collect();
+    jobs.par_iter()
+        .map(|(c, d)| {
+            let mut acc = Acc::new();
+            let q = nest(c, *d);
+            acc.evals += 1;
+            let v = classify(&q);
+            let r = match parse_fresh(&q) {
+                Ok(r) => r,
+                Err(e) => {
+                    acc.bump("MACHINERY_child_failed", 1);
+                    acc.outcome(|| e);
+                    return acc;
+                }
+            };
+            let case = || json!({"kind": "parse-fresh", "class": format!("fresh-process nesting ladder: {}", c), "string": q, "model": format!("{:?}", v)});
+            match (l.run.prop.as_str(), v) {
+                ("C06", Verdict::Valid) => {
+                    acc.nontrivial += 1;
+                    if r != "accepted" {
+                        acc.viol(format!("valid RFC 9535 query ({} nested {} deep) is not accepted as the first parse of a fresh process: {:?} -> {}", c, d, q, r), case());
+                    }
+                }
+                ("C07", Verdict::Invalid) => {
+                    acc.nontrivial += 1;
+                    if r == "accepted" {
+                        acc.viol(format!("string outside RFC 9535 accepted as the first parse of a fresh process: {:?}", q), case());
+                    }
+                }
+                ("C08", _) => {
+                    if r.starts_with("panic") || r.starts_with("abort") {
+                        acc.viol(format!("{} nested {} deep: {} ({:?})", c, d, r, q), case());
+                    }
+                }
+                _ => {}
+            }
+            acc
+        })
+        .reduce(Acc::new, Acc::merge)
+}
+
+pub fn replay_fresh(case: &Value, run: &Run) -> Acc {
+    let mut acc = Acc::new();
+    let q = case["string"].as_str().unwrap_or("$");
+    let v = classify(q);
+    let r = parse_fresh(q).unwrap_or_else(|e| format!("machinery: {}", e));
+    println!("string         : {:?}\nRFC recogniser : {:?}\nfresh process  : {}", q, v, r);
+    let bad = match (run.prop.as_str(), v) {
+        ("C06", Verdict::Valid) => r != "accepted",
+        ("C07", Verdict::Invalid) => r == "accepted",
+        ("C08", _) => r.starts_with("panic") || r.starts_with("abort"),
+        _ => false,
+    };
+    if bad {
+        acc.viol(format!("{:?} as the first parse of a fresh process: {}", q, r), case.clone());
+    }
+    acc
+}
+
 pub fn run(prop: &str, tier: &str) -> i32 {
     let run = Run::new(prop, tier);
     let th = run.thorough();
@@ -796,6 +911,15 @@ pub fn run(prop: &str, tier: &str) -> i32 {
     let t0 = std::time::Instant::now();
     let a = stage(&format!("token strings up to {} tokens after $", ntok), token_space(&l, ntok), t0);
     total = total.merge(a);
+    if prop != "C08" {
+        let t0 = std::time::Instant::now();
+        let a = stage("nesting ladders, each sentence as the first parse of a fresh process", fresh_ladder(&l, th), t0);
+        if a.extra.get("MACHINERY_child_failed").copied().unwrap_or(0) > 0 {
+            eprintln!("MACHINERY: a parse-fresh child could not be run");
+            return 2;
+        }
+        total = total.merge(a);
+    }
     if prop == "C08" {
         let t0 = std::time::Instant::now();
         let a = stage("integer cube (index / slice / singular index, parsed and programmatic)", crate::checks::robust::cube(&run), t0);
@@ -805,7 +929,7 @@ pub fn run(prop: &str, tier: &str) -> i32 {
         total = total.merge(a);
     }
     let rule = match prop {
-        "C06" => "every string of five exhaustively enumerated spaces (token strings, character strings, generated ABNF sentences with blank-space variants, one-position families, single-token edits) is classified by the RFC recogniser and parsed by the real parser; a C06 case is a string the recogniser calls valid; distinct_nontrivial = distinct valid strings (hash set)",
+        "C06" => "every string of five exhaustively enumerated spaces (token strings, character strings, generated ABNF sentences with blank-space variants, one-position families, single-token edits) and of 14 nesting ladders (depth 1..10 (14), each sentence parsed as the first parse of a fresh process) is classified by the RFC recogniser and parsed by the real parser; a C06 case is a string the recogniser calls valid; distinct_nontrivial = distinct valid strings (hash set)",
         "C07" => "same enumeration; a C07 case is a string the recogniser calls invalid; distinct_nontrivial = distinct invalid strings from the near-miss spaces (families, blank variants, single-token edits of valid sentences)",
         _ => "same enumeration; every string is parsed under catch_unwind with overflow checks on; every accepted string is evaluated on a 12-document panel through query_with_path, query, query_only_path and js_path_process and must return Ok; distinct_nontrivial = distinct accepted strings",
     };
